@@ -3,6 +3,68 @@ import c05
 import connlts
 
 
+def client_level(ck):
+    """"the stop callback GIVEN AT CONNECT TIME": through APIClient the callback belongs to the session it was given for.  A
+    later connect() / start_connection() that is refused (a session is alive) or that starts the next session brings its own
+    callback and must not take over the running session's."""
+    import simnet
+    from aioesphomeapi import api_pb2 as pb
+    from aioesphomeapi.core import APIConnectionError
+
+    n = 0
+    for second in ("connect", "start_connection"):
+        for other in ("callback", "none"):
+            for ending in ("eof", "reset", "peer", "disconnect", "force"):
+                a_calls, b_calls = [], []
+                net = simnet.Net()
+                loop = net.loop
+                net.auto_resolve = net.auto_sock = True
+                from aioesphomeapi.client import APIClient
+                client = APIClient("10.0.0.1", 6053, None, keepalive=1e6)
+
+                async def on_stop_a(expected):
+                    a_calls.append(expected)
+
+                async def on_stop_b(expected):
+                    b_calls.append(expected)
+
+                o = simnet.spawn(loop, client.connect(on_stop=on_stop_a, login=False), "connect")
+                loop.run_idle()
+                net.send(simnet.hello_response(1, 10, ""))
+                loop.run_idle()
+                refused = None
+                cb = on_stop_b if other == "callback" else None
+                coro = client.connect(on_stop=cb, login=False) if second == "connect" else client.start_connection(on_stop=cb)
+                o2 = simnet.spawn(loop, coro, "second")
+                loop.run_idle()
+                exc2 = o2.task.exception() if o2.task.done() and not o2.task.cancelled() else None
+                refused = isinstance(exc2, APIConnectionError)
+                if ending == "eof":
+                    net.eof()
+                elif ending == "reset":
+                    net.reset()
+                elif ending == "peer":
+                    net.send(pb.DisconnectRequest())
+                elif ending == "disconnect":
+                    d = simnet.spawn(loop, client.disconnect(), "disc")
+                    loop.run_idle()
+                    net.send(pb.DisconnectResponse())
+                else:
+                    simnet.spawn(loop, client.disconnect(force=True), "disc")
+                loop.run_idle()
+                loop.run_idle()
+                want = [ending in ("peer", "disconnect", "force")]
+                n += 1
+                if o.cls() != "ok" or not refused or a_calls != want or b_calls:
+                    ck.violation(f"c07:client-callback:{second}:{other}", f"session 1 connected with stop callback A (connect: {o.cls()}); a second "
+                                 f"{second}() with {'callback B' if cb else 'no callback'} was {'refused' if refused else 'NOT refused: ' + repr(exc2)}; "
+                                 f"then the session ended by {ending}: A called with {a_calls} (expected {want}), B called with {b_calls} (expected [])",
+                                 {"second_call": second, "second_callback": other, "ending": ending, "a_calls": a_calls, "b_calls": b_calls})
+                net.close()
+    return n
+
+
 def run(ck):
     c05.run(ck, spec=lambda obs, lines, info: connlts.spec_c07(obs, lines), keys=("st", "stops"),
             what="connection LTS != implementation (stop-callback projection)", pid="C07")
+    ck.coverage["client_level_callback_binding_cases"] = client_level(ck)
